@@ -3,6 +3,7 @@ package sqlx
 import (
 	"context"
 	"database/sql"
+	"errors"
 	"github.com/gotid/god/lib/breaker"
 	"github.com/gotid/god/lib/logx"
 )
@@ -277,7 +278,8 @@ func (db *commonConn) TransactCtx(ctx context.Context, fn func(context.Context, 
 }
 
 func (db *commonConn) acceptable(err error) bool {
-	ok := err == nil || err == sql.ErrNoRows || err == sql.ErrTxDone || err == context.Canceled
+	// 良性结果即使被包装（fmt.Errorf("...: %w", ErrNotFound)、包着 context.Canceled 的网络错误）也仍是良性的
+	ok := err == nil || errors.Is(err, sql.ErrNoRows) || errors.Is(err, sql.ErrTxDone) || errors.Is(err, context.Canceled)
 	if db.accept == nil {
 		return ok
 	}
